@@ -7,6 +7,7 @@ from vf.core import Obligation, PROVED, FAILED_NO_INPUT, UNDECIDED
 from vf.pyvc import sorts as S
 from vf.pyvc.sorts import *
 from vf.pyvc.state import *
+from vf.pyvc.state import Hyps
 from vf.pyvc import ops
 from vf.pyvc.ops import B, I
 from vf.pyvc.exec import Frame, EmptySeq
@@ -319,6 +320,11 @@ class Verifier(Executor):
         # ids of all objects reachable at entry are alive
         if c.requires is not None:
             st = st.assume(PureEval(self, st, dict(env, __entry__=Entry(env))).truth(c.requires))
+        # lemmas: consequences of the precondition, proved once at entry (in order) and available afterwards
+        for label, e in (c.lemmas or {}).items():
+            goal = PureEval(self, st, dict(env, __entry__=Entry(env)), old_st=st).truth(e)
+            self.vc(f"{short}.lemma.{label}", st, goal, "lemma at entry")
+            st = st.assume(goal)
         self.entry_st = st
         exits: List[Any] = []
         top = Frame(lambda v, s: exits.append(("return", v, s)), lambda e, s: exits.append((e, None, s)), None, fn.name)
@@ -419,23 +425,43 @@ def prove_vc(axioms, hyps, goal):
     """(Result, solver time): the full VC first; if undecided, the same goal under the path condition alone and
     then with the type facts relevant to it (sound: fewer hypotheses).  The full set can drown the instantiation
     engine in type invariants the goal does not touch."""
+    # an unreachability goal (False): refute the last branch condition from the rest, so that relevance
+    # filtering has a goal to start from
+    if z3.is_false(goal) and len(hyps) > getattr(hyps, "nfacts", 0) + 1:
+        nf0 = getattr(hyps, "nfacts", 0)
+        goal = z3.Not(hyps[-1])
+        h2 = Hyps(list(hyps[:-1])); h2.nfacts = nf0
+        hyps = h2
+    # syntactic discharge: the (simplified) goal is literally one of the hypotheses' conjuncts
+    gs = z3.simplify(goal)
+    have = set()
+    todo = [z3.simplify(h) if not z3.is_quantifier(h) else h for h in hyps]
+    while todo:
+        h = todo.pop()
+        if z3.is_and(h): todo.extend(h.children())
+        else: have.add(h.get_id())
+    gl = gs.children() if z3.is_and(gs) else [gs]
+    if all(g.get_id() in have or z3.is_true(g) for g in gl):
+        return prover.Result("unsat", "syntactic", 0.0), 0.0
     axioms = list(axioms) + S.lifted_axioms_for(list(hyps) + [goal])
-    r = prover.check_valid(axioms + list(hyps), goal, rlimit=PYVC_RLIMIT, cvc5_timeout_s=10)
-    t = r.time_s
-    if r.proved or r.status == "sat":
-        return r, t
+    # small, goal-directed hypothesis sets first (sound: fewer hypotheses); the full VC last.  The full set can
+    # drown the instantiation engine in type invariants and stale path conditions the goal does not touch.
     nf = getattr(hyps, "nfacts", 0)
     pcs = list(hyps[nf:])
-    tiers = [pcs] if nf else []
-    for depth in (0, 1, 2):
-        tiers.append(pcs + relevant_hyps(list(hyps[:nf]), z3.And(goal, *pcs[1:]) if len(pcs) > 1 else goal, depth))
+    tiers = [relevant_hyps(list(hyps), goal, 0), relevant_hyps(list(hyps), goal, 1)]
+    if nf: tiers.append(pcs)
+    tiers.append(relevant_hyps(list(hyps), goal, 2))
+    t, tried, last = 0.0, set(), None
     for sub in tiers:
-        if len(sub) == len(hyps): continue
-        r2 = prover.check_valid(axioms + sub, goal, rlimit=PYVC_RLIMIT // 2, use_cvc5=False)
+        key = tuple(sorted(h.get_id() for h in sub))
+        if len(sub) == len(hyps) or key in tried: continue
+        tried.add(key)
+        r2 = prover.check_valid(axioms + sub, goal, rlimit=PYVC_RLIMIT // 3, use_cvc5=False)
         t += r2.time_s
         if r2.proved:
             return r2, t
-    return r, t
+    r = prover.check_valid(axioms + list(hyps), goal, rlimit=PYVC_RLIMIT, cvc5_timeout_s=10)
+    return r, t + r.time_s
 
 
 def _symbols(e, cache):
@@ -452,7 +478,7 @@ def _symbols(e, cache):
             todo.append(x.body()); continue
         if z3.is_app(x):
             d = x.decl()
-            if d.kind() == z3.Z3_OP_UNINTERPRETED:
+            if d.kind() == z3.Z3_OP_UNINTERPRETED and not d.name().startswith(("dflt_", "str:", "card<")):
                 out.add(d.name())
             todo.extend(x.children())
     cache[key] = out
@@ -477,7 +503,7 @@ def relevant_hyps(hyps, goal, depth):
 
 
 def _verify_one(args):
-    contract_files, qual, repo = args
+    contract_files, qual, repo, shard, nshards = args
     from vf.pyvc.spec import load_contracts
     P = Program(repo=repo)
     spec = load_contracts(contract_files)
@@ -502,6 +528,12 @@ def _verify_one(args):
                            f"outside the supported subset: executor exception {type(e).__name__}: {e} ({tb.filename.split('/')[-1]}:{tb.lineno})")]
     if not vcs:
         return ("error", f"{qual}: zero verification conditions generated")
+    if nshards > 1:
+        names = list(dict.fromkeys(n for n, _, _, _ in vcs))
+        mine = {n for i, n in enumerate(names) if i % nshards == shard}
+        vcs = [x for x in vcs if x[0] in mine]
+        if shard != 0:
+            return discharge(vcs, P, qual)
     # vacuity guards: the precondition (with the type invariants) must not be contradictory, and at
     # least one exit must be reachable under a non-contradictory path condition
     axioms = S.lit_axioms()
@@ -531,15 +563,23 @@ def verify_contracts(contract_files, only=None, program: Program = None, jobs: i
     for q in quals:
         if P.lookup(q) is None:
             raise core.CheckerError(f"contract names {q}, which no longer exists in /repo")
-    work = [(list(contract_files), q, P.repo) for q in quals]
+    # the VCs of one function are discharged by several workers (each regenerates the VCs -- cheap -- and takes
+    # every n-th obligation), so that one function with heavy obligations does not serialise the run
+    shards = {q: (spec.contracts[q].shards if jobs > 1 else 1) for q in quals}
+    work = [(list(contract_files), q, P.repo, k, shards[q]) for q in quals for k in range(shards[q])]
     if jobs > 1 and len(work) > 1:
         with mp.get_context("fork").Pool(min(jobs, len(work))) as pool:
             results = pool.map(_verify_one, work, chunksize=1)
     else:
         results = [_verify_one(w) for w in work]
     obligations: List[Obligation] = []
-    for q, r in zip(quals, results):
+    seen_subset = set()
+    for w, r in zip(work, results):
         if isinstance(r, tuple) and r[0] == "error":
             raise core.CheckerError(r[1])
-        obligations += r
+        for o in r:
+            if o.name.endswith(".in_subset"):
+                if o.name in seen_subset: continue
+                seen_subset.add(o.name)
+            obligations.append(o)
     return obligations, quals
